@@ -636,8 +636,11 @@ class FBDriverHistories(common.Suite):
                         diffs.append(f"record {i} ({a['t']}, step_count {a['count']}): {key}[{j}] real={u!r} model={v!r}")
                         break
             if b["t"] == "E" and a["cache"] != b["cache"]:
+                # the cached configuration is a configuration: same tolerance as the positions of an event record (a
+                # coordinate that came to lie near 0 carries the absolute rounding error of coordinates of size 1)
+                scale = max([abs(t) for t in (a["cache"] or [])] + [abs(t) for t in (b["cache"] or [])] + [1e-300])
                 if a["cache"] is None or b["cache"] is None or len(a["cache"]) != len(b["cache"]) or any(
-                        not common.close(u, v, 1e-12, 1e-300) for u, v in zip(a["cache"], b["cache"])):
+                        not common.close(u, v, 1e-12, 1e-12 * scale) for u, v in zip(a["cache"], b["cache"])):
                     diffs.append(f"record {i} (after event, step_count {a['count']}): calculator results belong to "
                                  f"real={a['cache'] and a['cache'][:3]} model={b['cache'] and b['cache'][:3]}")
             if diffs:
